@@ -322,9 +322,9 @@ def main(tier, seed):
     batches = [{"cases": cases[i::nb]} for i in range(nb)]
     # real loopback (bvm/realnet.py): nothing substituted; each cause x role, then a restart of the same object and a clean close
     real = [{"kind": "lifecycle", "seed": seed * 131 + k, "role": role, "cause": cause}
-            for k in range(1 if q else 6) for cause in ("local-close", "peer-dpr", "peer-disconnect", "peer-reset", "peer-reset-outbound", "refused", "pre-ce-disconnect")
-            for role in ("client", "server") if not (cause == "refused" and role == "server") and not (cause == "pre-ce-disconnect" and role == "client")]
-    nrb = 12 if q else 16
+            for k in range(1 if q else 6) for cause in ("local-close", "peer-dpr", "peer-disconnect", "peer-reset", "peer-reset-outbound", "refused", "pre-ce-disconnect", "context-retry")
+            for role in ("client", "server") if not (cause in ("refused", "context-retry") and role == "server") and not (cause == "pre-ce-disconnect" and role == "client")]
+    nrb = 13 if q else 16
     for i in range(nrb):
         if real[i::nrb]:
             batches.append({"real": real[i::nrb]})
